@@ -215,6 +215,7 @@ func (t *T) Logf(format string, a ...interface{}) {
 // Exec runs the real library on a project.
 func (t *T) Exec(d run.Doc) *run.Obs {
 	t.res.Counters["executions"]++
+	touchWatchdog() // the CPU cap is per execution of the library, not per case (a case may run a project many times)
 	o := run.Exec(d, false)
 	t.logObs(d, o)
 	return o
@@ -223,6 +224,7 @@ func (t *T) Exec(d run.Doc) *run.Obs {
 // ExecKeep is Exec keeping the core for tree inspection.
 func (t *T) ExecKeep(d run.Doc) *run.Obs {
 	t.res.Counters["executions"]++
+	touchWatchdog()
 	o := run.Exec(d, true)
 	t.logObs(d, o)
 	return o
